@@ -38,7 +38,8 @@ Proof. exact fixed_point_full. Qed.
 
 (** regression examples of repaired behaviour: public.objectLibs without fontinfo.plist is dropped
     at load and the font is saved (1c81824); duplicate layer names / directories, a misplaced
-    public.default and a glif file used twice are rejected at load (83f6c18, afd801a) *)
+    public.default and a glif file used twice — compared without case (f6784f0) — are rejected at load
+    (83f6c18, afd801a) *)
 Example C04_orphan_object_libs_removed :
   exists f t', load toy_sig toy_orphan_tree = Ok f /\ d_get toy_sig OBJ (f_lib toy_sig f) = None /\
                save toy_sig 0 f = Ok t'.
@@ -48,6 +49,9 @@ Example C04_duplicates_rejected :
   load toy_sig (toy_dup_tree [(s "x", GLYPHS); (s "x", s "glyphs.x")] []) = Err LDuplicateLayerName /\
   load toy_sig (toy_dup_tree [(s "x", GLYPHS); (DEFAULT_LAYER_NAME, s "glyphs.x")] []) = Err LReservedLayerName /\
   load toy_sig (toy_dup_tree [(s "x", GLYPHS)] [(s "a", s "a.glif"); (s "b", s "a.glif")]) = Err LDuplicateGlyphFile /\
+  (* compared without case (f6784f0) *)
+  load toy_sig (toy_dup_tree [(s "x", GLYPHS); (s "y", s "glyphs.X"); (s "z", s "glyphs.x")] []) = Err LDuplicateLayerDirectory /\
+  load toy_sig (toy_dup_tree [(s "x", GLYPHS)] [(s "a", s "a.glif"); (s "b", s "A.glif")]) = Err LDuplicateGlyphFile /\
   exists f, load toy_sig (toy_dup_tree [(s "y", s "glyphs.x"); (s "x", GLYPHS)] [(s "a", s "a.glif")]) = Ok f.
 Proof. exact duplicates_rejected. Qed.
 
